@@ -75,7 +75,7 @@ def run(ctx):
     U = I.utils.UnknownOperationResolver
     T = I.tree
     tmap = {"lucene": None, "and": T.AndOperation, "or": T.OrOperation, "bool": T.BoolOperation}
-    hist = trees.SharedObjects(ctx, rng, "UnknownOperationResolver", known_params={"tree"})
+    hist = trees.SharedObjects(ctx, rng, "UnknownOperationResolver", known_params={"tree"}, raw=lambda r, t: r(t))
     for i in range(n):
         origin, d = trees.mixed_tree(ctx, rng, p_parsed=0.5, layout="partial", names=True,
                                      ops=["UnknownOperation", "UnknownOperation", "AndOperation", "OrOperation", "BoolOperation"])
